@@ -2,6 +2,7 @@ package e1
 
 import (
 	"fmt"
+	"math/big"
 	"testing"
 	"testing/synctest"
 	"time"
@@ -792,6 +793,27 @@ func nonConvergenceCause(w *World, wt *watcher) string {
 				return "lagging-sync-peer-and-client-not-current-when-better-peer-connected"
 			}
 			return "on-lagging-chain-although-current-when-better-peer-connected"
+		}
+	}
+	// Is the client the sync victim of connected nodes that serve the
+	// heavier branch only in batches none of which is heavier, on its own,
+	// than what it would displace? (The client judges a reorganisation per
+	// headers message.)
+	hon := w.peers[0].view
+	if !ct.IsAncestorOf(hon) && hon.CumWork.Cmp(ct.CumWork) > 0 {
+		fork := chainmodel.ForkPoint(ct, hon)
+		displaced := new(big.Int).Sub(ct.CumWork, fork.CumWork)
+		for _, p := range w.peers {
+			if p.idx == 0 || !p.connected() || p.beh.MaxHeaders <= 0 || !fork.IsAncestorOf(p.view) || ct.IsAncestorOf(p.view) {
+				continue
+			}
+			first := p.view
+			if int(p.view.Height-fork.Height) > p.beh.MaxHeaders {
+				first = p.view.Ancestor(fork.Height + int32(p.beh.MaxHeaders))
+			}
+			if new(big.Int).Sub(first.CumWork, fork.CumWork).Cmp(displaced) <= 0 {
+				return "sync-peer-serves-heavier-branch-in-batches-not-heavier-alone"
+			}
 		}
 	}
 	return "other"
